@@ -512,6 +512,83 @@ def b_ram(p):
                   addr_ports={"waddr": depth, "raddr": depth, "raddr2": depth, "waddr2": depth})
 
 
+# ------------------------------------------------------------------------------------------------- hierarchy x inferred RAM x masked write
+def gp_hram(rng):
+    th = rng.choice([1024, 1024, 64])
+    w = rng.choice([8, 16, 32]) if th == 1024 else rng.choice([2, 4, 8])
+    depth = max(2, min(256, rng.choice([th // w, th // w + 1, 2 * th // w, th // w - 1])))
+    return {"w": w, "depth": depth, "mask": rng.choice(["bytes", "rmw", "bits", "bytes"]),
+            "topo": rng.choice(["one", "two", "nested", "nested_two"]), "pre": rng.randint(1, 3)}
+
+
+def b_hram(p):
+    """A RAM with byte / bit / read-modify-write masked writes living in a CHILD module (optionally nested two levels,
+    optionally instantiated twice); the parent declares unrelated ports and logic BEFORE the instance so that its net
+    numbering differs from the child's (flatten_inst must remap addr/data/enable AND mask nets)."""
+    w, depth, mk, topo = p["w"], p["depth"], p["mask"], p["topo"]
+    aw = clog2(depth)
+    h = max(1, w // 2)
+    bew = {"bytes": 2, "bits": w, "rmw": w}[mk]
+    mem = Mod("MemM")
+    mem.port("clk", "input", "clock")
+    mem.port("we", "input", "logic")
+    mem.port("be", "input", ty(bew))
+    mem.port("waddr", "input", ty(aw))
+    mem.port("wdata", "input", ty(w))
+    mem.port("raddr", "input", ty(aw))
+    mem.port("rdata", "output", ty(w))
+    if mk == "bytes":
+        wr = ("if we {\n            if be[0] {\n                mem[waddr][%d:0] = wdata[%d:0];\n            }\n            if be[1] {\n"
+              "                mem[waddr][%d:%d] = wdata[%d:%d];\n            }\n        }" % (h - 1, h - 1, w - 1, h, w - 1, h))
+    elif mk == "bits":
+        wr = "if we {\n            for i in 0..%d {\n                if be[i] {\n                    mem[waddr][i] = wdata[i];\n                }\n            }\n        }" % w
+    else:
+        wr = "if we {\n            mem[waddr] = (mem[waddr] & ~be) | (wdata & be);\n        }"
+    mem.add("    var mem: %s [%d];\n    always_ff (clk) {\n        %s\n    }\n    assign rdata = mem[raddr];" % (ty(w), depth, wr))
+    src = mem.render()
+    child = "MemM"
+    if topo in ("nested", "nested_two"):
+        mid = Mod("Mid")
+        mid.port("k", "input", ty(w))
+        mid.port("clk", "input", "clock")
+        for n_, t_ in (("we", "logic"), ("be", ty(bew)), ("waddr", ty(aw)), ("wdata", ty(w)), ("raddr", ty(aw))):
+            mid.port(n_, "input", t_)
+        mid.port("rdata", "output", ty(w))
+        mid.add("    var t: %s;\n    var bm: %s;\n    var ro: %s;\n    assign t = wdata ^ k;\n    assign bm = be | {k[0] repeat %d};\n"
+                "    inst u: MemM (\n        clk, we, be: bm, waddr, wdata: t, raddr, rdata: ro,\n    );\n    assign rdata = ro + k;"
+                % (ty(w), ty(bew), ty(w), bew))
+        src += mid.render()
+        child = "Mid"
+    top = Mod("Top")
+    ins = []
+    # unrelated ports and logic first: shifts the parent's net numbering away from the child's
+    top.port("x", "input", ty(w))
+    top.port("y", "input", ty(w))
+    ins += [("x", w), ("y", w)]
+    top.port("s", "output", ty(w))
+    top.port("clk", "input", "clock")
+    for n_, w_ in (("we", 1), ("be", bew), ("waddr", aw), ("wdata", w), ("raddr", aw)):
+        top.port(n_, "input", ty(w_))
+        ins.append((n_, w_))
+    top.port("rdata", "output", ty(w))
+    outs = [("s", w), ("rdata", w)]
+    pre = "".join("    var p%d: %s;\n    assign p%d = (x %s y) ^ %s;\n" % (i, ty(w), i, ["+", "-", "&"][i % 3], "x" if i == 0 else "p%d" % (i - 1))
+                  for i in range(p["pre"]))
+    last = "p%d" % (p["pre"] - 1)
+    kk = "k: %s, " % last if child == "Mid" else ""
+    body = pre + "    assign s = %s;\n    var bx: %s;\n    assign bx = be & ~{(x[0] & y[0]) repeat %d};\n" % (last, ty(bew), bew)
+    body += "    inst u0: %s (\n        %sclk, we, be: bx, waddr, wdata: wdata ^ %s, raddr, rdata,\n    );\n" % (child, kk, last)
+    if topo in ("two", "nested_two"):
+        top.port("rdata_b", "output", ty(w))
+        outs.append(("rdata_b", w))
+        body += "    inst u1: %s (\n        %sclk, we, be: ~bx | be, waddr, wdata: ~wdata, raddr: waddr, rdata: rdata_b,\n    );\n" % (child, kk)
+    top.add(body)
+    src += top.render()
+    init = {"we": "we", "addr": "waddr", "data": "wdata", "depth": depth, "others_zero": ["x", "y"]}
+    return design("hram", p, src, ins, outs, clk="clk", init=init, tags=[mk, topo, "bits=%d" % (w * depth)],
+                  addr_ports={"waddr": depth, "raddr": depth})
+
+
 # ------------------------------------------------------------------------------------------------- hierarchy
 def gp_hier(rng):
     return {"w": pick_width(rng, 1, 40), "n": rng.randint(1, 3), "style": rng.choice(["comb", "reg", "chain", "iface"]),
@@ -686,7 +763,7 @@ FAMILIES = {
     "arith": (gp_arith, b_arith, 3), "muldiv": (gp_muldiv, b_muldiv, 2), "shift": (gp_shift, b_shift, 2),
     "mux": (gp_mux, b_mux, 3), "reduce": (gp_reduce, b_reduce, 3), "count": (gp_count, b_count, 2),
     "regs": (gp_regs, b_regs, 4), "ram": (gp_ram, b_ram, 4), "hier": (gp_hier, b_hier, 2),
-    "concat": (gp_concat, b_concat, 2), "expr": (gp_expr, b_expr, 3),
+    "concat": (gp_concat, b_concat, 2), "expr": (gp_expr, b_expr, 3), "hram": (gp_hram, b_hram, 3),
 }
 
 
@@ -709,6 +786,9 @@ REQUIRED = [
     ("ram", {"style": "bytes", "w": 16, "depth": 64}), ("ram", {"style": "1r2w", "w": 9, "depth": 120}),
     ("ram", {"style": "sub", "w": 8, "depth": 128}), ("ram", {"style": "rmw", "w": 4, "depth": 16}),
     ("hier", {"style": "chain", "n": 3}), ("concat", {"style": "sext", "signed": True}),
+    # RAM inferred inside a child, masked writes, parent with unrelated logic before the instance (flatten_inst remap)
+    ("hram", {"w": 16, "depth": 64, "mask": "bytes", "topo": "one"}), ("hram", {"w": 8, "depth": 128, "mask": "rmw", "topo": "two"}),
+    ("hram", {"w": 8, "depth": 129, "mask": "bits", "topo": "nested"}), ("hram", {"w": 16, "depth": 65, "mask": "bytes", "topo": "nested_two"}),
 ]
 
 
@@ -750,7 +830,7 @@ def gen_stimulus(rng, d, cycles):
                 elif n in init.get("others_zero", []) or n.startswith("we"):
                     v.append("0")
                 elif n == "be":
-                    v.append("3")
+                    v.append("%x" % ((1 << w) - 1))
                 elif n == "wmask":
                     v.append("%x" % ((1 << w) - 1))
                 else:
